@@ -1,7 +1,8 @@
-\* one block of three components: every accounting clause on every state one edit away (all twelve edits incl. vector mass calls and height changes, at all six nodes); states and edges are emitted for replay
-CONSTANTS NLeaf = 3  NBlk = 1  NAsm = 1  MaxLevel = 2  LMax = 20000  VMax = 100
+\* one block of three components: every accounting clause on every state one edit away (all fifteen edits, at all six nodes); states and edges are emitted for replay
+CONSTANTS NLeaf = 3  NBlk = 1  NAsm = 1  MaxLevel = 2  LSrc = 600  LMax = 20000  VMax = 100
 CONSTANTS Parent <- TBlkParent  Area <- TBlkArea  Height <- TBlkHeight  Sym <- TBlkSym  W <- Wt  N0 <- TBlkN0  H0 <- TBlkH0
 CONSTANTS Targets <- TBlkTargetsAll  Vals <- ValsT  Facs <- FacsT  Masses <- MassesT  Maps <- MapsT  FracMaps <- FracMapsT  AddMaps <- AddMapsT  SetMaps <- SetMapsT
+CONSTANTS AdjSets <- AdjSetsT  EnrFracs <- EnrFracsT  AdjMFs <- AdjMFsT
 CONSTANTS HDom <- HDom123  HTargets <- TBlkHAll  HVals <- HDom123
 CONSTANTS LeafVolCut <- LeafVolCutEnv  ScaleRaises <- ScaleRaisesEnv
 INIT InitB
